@@ -158,10 +158,13 @@ pub fn eval(bases: &[BaseImg], c: &MountCase) -> CaseOut {
     let raw = dev.with_store(|s| RawBpb::read(s));
     let derived = Geom::derive(&raw);
     let start = dev.calls();
+    // one mount in four on a storage that makes short transfers (set per case: the device is shared by the thread)
+    let sh = c.patches.iter().fold(0x9E37_79B9u64, |a, p| (a ^ (p.off as u64) ^ (p.value as u64)).wrapping_mul(0x100_0000_01B3).rotate_left(17));
     dev.with(|d| {
         d.pos = 0;
         d.budget = start + 3_000_000;
         d.budget_hit = false;
+        d.short_io = if sh % 4 == 0 { sh | 1 } else { 0 };
     });
     let strict = c.strict;
     let devh = dev.handle();
